@@ -6,7 +6,7 @@
                                                       [generate_draws]
    src/biogeme/expressions/idmanager.py
      IdManager.draw_types()                        -> [draws_decls], [draw_types]
-     IdManager.prepare (last statement)            -> [prepare_draws]
+     IdManager.prepare (_check_types_of_draws, last statement) -> [types_consistentb], [prepare_draws]
    cythonbiogeme/cpp/bioExprDraws.cc
      getLiteralValue: draws[individual][draw][theDrawId]   -> [engine_read], [engine_draws]
    cythonbiogeme/cpp/bioExprMontecarlo.cc           the loop is Model/EvalX.v [xmean]
@@ -54,6 +54,15 @@ Inductive gd_error :=
 
 Inductive result (T : Type) := Ok (x : T) | Err (e : gd_error).
 Arguments Ok {T}. Arguments Err {T}.
+
+(* IdManager._check_types_of_draws (called by prepare on every formula): every bioDraws object must carry
+   the type kept in the dictionary for its name (= the last declaration); otherwise BiogemeError
+   "Draw variable ... is declared with two types" *)
+Definition types_consistentb (fs : list expr) : bool :=
+  forallb (fun d => match assoc (fst d) (draw_types fs) with
+                    | Some t => String.eqb t (snd d)
+                    | None => false
+                    end) (draws_decls fs).
 
 Section Draws.
   Variable A : Type.        (* the numbers *)
@@ -123,13 +132,20 @@ Section Draws.
     end.
 
   (* ---------------------------------------------------------------- IdManager.prepare + draws *)
-  (* None = prepare refused (a name used for two kinds of element) *)
-  Definition prepare_draws (native user : gdict) (fs : list expr) (cols : list string)
+  (* the preparation as it was before the check of the draw types was added (kept for the refuted
+     statement T10a_conflicting_types_refuted) *)
+  Definition prepare_draws_unchecked (native user : gdict) (fs : list expr) (cols : list string)
              (N R : nat) (s : S) : option (idtable * result (tensor * S)) :=
     match prepare fs cols with
     | None => None
     | Some t => Some (t, generate_draws native user (draw_types fs) (t_draws t) N R s)
     end.
+
+  (* None = prepare refused: a draw variable declared with two types, or a name used for two kinds
+     of element (both are BiogemeError) *)
+  Definition prepare_draws (native user : gdict) (fs : list expr) (cols : list string)
+             (N R : nat) (s : S) : option (idtable * result (tensor * S)) :=
+    if types_consistentb fs then prepare_draws_unchecked native user fs cols N R s else None.
 
   (* ---------------------------------------------------------------- the engine *)
   (* bioDraws.set_id_manager: drawId = id_manager.draws.indices[name] *)
